@@ -98,6 +98,8 @@ fn format_alternation(
     is_output_colorized: bool,
     is_verbose_mode_enabled: bool,
 ) -> Result {
+    #[cfg(grex_verif)]
+    crate::verif::point("format.alternation");
     let pipe_component = Component::Pipe.to_repr(is_output_colorized);
     let disjunction_operator = if is_verbose_mode_enabled {
         format!("\n{}\n", pipe_component)
@@ -137,6 +139,8 @@ fn format_character_class(
     char_set: &BTreeSet<char>,
     is_output_colorized: bool,
 ) -> Result {
+    #[cfg(grex_verif)]
+    crate::verif::point("format.character_class");
     let chars_to_escape = ['[', ']', '\\', '-', '^', '$'];
     let escaped_char_set = char_set
         .iter()
@@ -213,6 +217,8 @@ fn format_concatenation(
     is_output_colorized: bool,
     is_verbose_mode_enabled: bool,
 ) -> Result {
+    #[cfg(grex_verif)]
+    crate::verif::point("format.concatenation");
     let expr_strs = [expr1, expr2]
         .iter()
         .map(|&it| {
@@ -252,6 +258,8 @@ fn format_literal(
     is_non_ascii_char_escaped: bool,
     is_astral_code_point_converted_to_surrogate: bool,
 ) -> Result {
+    #[cfg(grex_verif)]
+    crate::verif::point("format.literal");
     let literal_str = cluster
         .graphemes()
         .iter()
@@ -289,6 +297,8 @@ fn format_repetition(
     is_output_colorized: bool,
     is_verbose_mode_enabled: bool,
 ) -> Result {
+    #[cfg(grex_verif)]
+    crate::verif::point("format.repetition");
     if expr1.precedence() < expr.precedence() && !expr1.is_single_codepoint() {
         if is_capturing_group_enabled {
             write!(
